@@ -167,17 +167,18 @@ theorem C14_rollback_multi (v : Variant) (hv : v.multiRepaired = true) (c : MCfg
   rfl
 
 /-- **Every documented keyword record of `decimate` is accepted** by `SingleSetup.decimate_data`,
-    in every state. -/
-theorem C14_kw_single (v : Variant) (c : SCfg) (s : SState) (q : Nat) (kw : DecKwIn)
+    in every state, for every factor `2 ≤ q` (the property's factors are 2..5; what happens at
+    `q = 0, 1` is `C14_decimate_q_single`). -/
+theorem C14_kw_single (v : Variant) (c : SCfg) (s : SState) (q : Nat) (hq : 2 ≤ q) (kw : DecKwIn)
     (h : kw.documented = true) : ∃ s', sStep v c s (.decimate q kw) = .ok s' :=
-  ⟨_, sStep_decimate_ok v c s q kw h⟩
+  ⟨_, sStep_decimate_ok v c s q kw (decOk_of_documented q kw h hq)⟩
 
 /-- … and by `MultiSetup_PreGER.decimate_data` once the keywords are popped (fix_4). -/
-theorem C14_kw_multi (v : Variant) (hv : v.multiRepaired = true) (c : MCfg) (s : MState) (q : Nat) (kw : DecKwIn)
-    (h : kw.documented = true) : ∃ s', mStep v c s (.decimate q kw) = .ok s' :=
-  ⟨_, mStep_decimate_ok v hv c s q kw h⟩
+theorem C14_kw_multi (v : Variant) (hv : v.multiRepaired = true) (c : MCfg) (s : MState) (q : Nat) (hq : 2 ≤ q)
+    (kw : DecKwIn) (h : kw.documented = true) : ∃ s', mStep v c s (.decimate q kw) = .ok s' :=
+  ⟨_, mStep_decimate_ok v hv c s q kw (decOk_of_documented q kw h hq)⟩
 
-example : (⟨some (some 12), some .fir, true, some false, false⟩ : DecKwIn).documented = true := by decide
+example : (2 : Nat) ≤ 3 ∧ (⟨some (some 12), some .fir, true, some false, false⟩ : DecKwIn).documented = true := by decide
 
 /-- **Outcome** (SingleSetup): a call raises exactly when scipy must reject it on the current array
     at the current `fs` (unknown keyword, bad `ftype`/`type`, breakpoint beyond the current length,
@@ -186,9 +187,9 @@ theorem C14_outcome_single (v : Variant) (c : SCfg) (s : SState) (op : Op) :
     (∃ s', sStep v c s op = .ok s') ↔ op.accepted [c.len s.data] s.fs = true := by
   cases op with
   | decimate q kw =>
-    by_cases hk : kw.documented = true
+    by_cases hk : decOk q kw = true
     · simp only [Op.accepted, hk, iff_true]; exact ⟨_, sStep_decimate_ok v c s q kw hk⟩
-    · have hk' : kw.documented = false := by simpa using hk
+    · have hk' : decOk q kw = false := by simpa using hk
       obtain ⟨e, he⟩ := sStep_decimate_err v c s q kw hk'
       simp [Op.accepted, hk', he]
   | detrend kw =>
@@ -216,9 +217,9 @@ theorem C14_outcome_multi (v : Variant) (hv : v.multiRepaired = true) (c : MCfg)
     (∃ s', mStep v c s op = .ok s') ↔ op.accepted (s.datasets.map (Term.len c.n0f)) s.fs = true := by
   cases op with
   | decimate q kw =>
-    by_cases hk : kw.documented = true
+    by_cases hk : decOk q kw = true
     · simp only [Op.accepted, hk, iff_true]; exact ⟨_, mStep_decimate_ok v hv c s q kw hk⟩
-    · have hk' : kw.documented = false := by simpa using hk
+    · have hk' : decOk q kw = false := by simpa using hk
       obtain ⟨e, he⟩ := mStep_decimate_err v hv c s q kw hk' hne
       simp [Op.accepted, hk', he]
   | detrend kw =>
@@ -239,5 +240,81 @@ theorem C14_outcome_multi (v : Variant) (hv : v.multiRepaired = true) (c : MCfg)
   | add => simp [Op.accepted, mStep, pure, Except.pure]
 
 example : (mInit ⟨[600, 500], [4, 3], 100, [[2, 0], [1, 0]]⟩).datasets ≠ [] := by decide
+
+/-! ## The decimation factor itself (`q = 0`, `q = 1`) -/
+
+/-- **Which decimation calls succeed** (SingleSetup, every state): exactly those with documented keywords
+    and a factor scipy can design a filter for — `2 ≤ q`, or `q = 1` with the IIR design (a legal call:
+    Chebyshev low-pass at 0.8·Nyquist, every sample kept, `fs/1`).  `Op.accepted`, hence the spec fold and
+    `activeQs` of the invariant theorems, carry these side conditions. -/
+theorem C14_decimate_q_single (v : Variant) (c : SCfg) (s : SState) (q : Nat) (kw : DecKwIn) :
+    (∃ s', sStep v c s (.decimate q kw) = .ok s') ↔
+      kw.documented = true ∧ (2 ≤ q ∨ (q = 1 ∧ kw.resolve.ftype = .iir)) := by
+  rw [C14_outcome_single]
+  simp [Op.accepted, decOk, decQOk]
+
+/-- the same for PreGER (at least one dataset). -/
+theorem C14_decimate_q_multi (v : Variant) (hv : v.multiRepaired = true) (c : MCfg) (s : MState)
+    (hne : s.datasets ≠ []) (q : Nat) (kw : DecKwIn) :
+    (∃ s', mStep v c s (.decimate q kw) = .ok s') ↔
+      kw.documented = true ∧ (2 ≤ q ∨ (q = 1 ∧ kw.resolve.ftype = .iir)) := by
+  rw [C14_outcome_multi v hv c s hne]
+  simp [Op.accepted, decOk, decQOk]
+
+/-- `q = 0` with documented keywords is scipy's `ZeroDivisionError` (`0.8 / q`, `1. / q`), raised before
+    anything is assigned — not the `ValueError` the docstring of `_decimate_data` announces. -/
+theorem C14_decimate_q0_single (v : Variant) (c : SCfg) (s : SState) (kw : DecKwIn) (h : kw.documented = true) :
+    sStep v c s (.decimate 0 kw) = .error .zeroDivisionError := by
+  obtain ⟨h1, h2⟩ := (documented_iff kw).mp h
+  have hg : ∀ k : DecKwIn, k.bogus = false → k.resolve.ftype ≠ .bad →
+      sciDecimate s.data 0 k = .error .zeroDivisionError := by
+    intro k hb hf; simp [sciDecimate, hb, hf]
+  have hs := hg ({ kw with axis0 := true } : DecKwIn) h1 h2
+  simp only [sStep, mergeKw_single, bind, Except.bind, helperDecimate, hs]
+
+/-- a rejected factor leaves the object and the bookkeeping of the invariant untouched: after any history,
+    `decimate(q = 0)` / FIR `decimate(q = 1)` change neither the object nor the spec fold nor `activeQs`. -/
+theorem C14_decimate_bad_q_noop (v : Variant) (c : SCfg) (ops : List Op) (q : Nat) (kw : DecKwIn)
+    (h : decOk q kw = false) :
+    sRun v c (ops ++ [.decimate q kw]) = sRun v c ops ∧
+      c.spec (ops ++ [.decimate q kw]) = c.spec ops ∧ activeQs (ops ++ [.decimate q kw]) = activeQs ops := by
+  obtain ⟨e, he⟩ := sStep_decimate_err v c (sRun v c ops) q kw h
+  refine ⟨by rw [sRun_snoc, sStep', he], ?_, ?_⟩
+  · simp [SCfg.spec, specRun, List.foldl_append, specStep, Op.accepted, h]
+  · simp [activeQs, List.foldl_append, qsStep, h]
+
+example : decOk 0 {} = false ∧ decOk 1 { ftype := some .fir } = false ∧ decOk 1 {} = true ∧
+    (mInit ⟨[600, 500], [4, 3], 100, [[2, 0], [1, 0]]⟩).datasets ≠ [] := by decide
+
+/-! ## Malformed `ref_ind` (the constructor raises) -/
+
+/-- **Which reference lists the constructor accepts for one dataset with `n` channels**: the removals
+    `mov_id.remove(r)` succeed exactly when the list is duplicate-free and in range (`ValueError` otherwise). -/
+theorem C14_refs_valid_iff (n : Nat) (r : List Nat) :
+    (∃ m, removeRefs (List.range n) r = .ok m) ↔ r.Nodup ∧ ∀ x ∈ r, x < n := by
+  rw [removeRefs_ok_iff _ List.nodup_range r]
+  simp [List.mem_range]
+
+/-- **On the lists the constructor accepts, the total split of the state machines is the constructor's**: when
+    `pre_multisetup` (with its `list.remove` / `reflist[i]` / `reshape` exceptions) returns, and there is one
+    reference list per dataset, the result is `preMultisetup` — the function all C14 theorems are about; on
+    duplicated / out-of-range / missing / empty / exhaustive reference lists no object exists, so the theorems'
+    quantification over every `MCfg` says nothing false about the code there. -/
+theorem C14_ctor_split_eq (nch : Nat → Nat) (ds : List Term) (rs : List (List Nat)) (Y : List Split)
+    (h : preMultisetupChecked nch ds rs = .ok Y) (hl : rs.length = ds.length) : Y = preMultisetup nch ds rs :=
+  preMultisetupChecked_eq nch ds rs Y h hl
+
+example : ∃ Y, preMultisetupChecked (fun _ => 4) [.init 0, .init 1] [[2, 0], [1, 3]] = .ok Y ∧
+    ([[2, 0], [1, 3]] : List (List Nat)).length = ([.init 0, .init 1] : List Term).length := ⟨_, rfl, rfl⟩
+
+/-- duplicated, out-of-range, missing, empty and exhaustive reference lists: the exception classes of the code. -/
+theorem C14_ctor_split_errors :
+    preMultisetupChecked (fun _ => 4) [.init 0, .init 1] [[0, 0], [0, 1]] = .error .valueError ∧
+    preMultisetupChecked (fun _ => 4) [.init 0, .init 1] [[0, 7], [0, 1]] = .error .valueError ∧
+    preMultisetupChecked (fun _ => 4) [.init 0, .init 1] [[0, 1]] = .error .indexError ∧
+    preMultisetupChecked (fun _ => 4) [.init 0, .init 1] [[], []] = .error .valueError ∧
+    preMultisetupChecked (fun _ => 4) [.init 0, .init 1] [[0, 1, 2, 3], [0]] = .error .valueError ∧
+    (∃ Y, preMultisetupChecked (fun _ => 4) [.init 0, .init 1] [[0], [1], [2]] = .ok Y) := by
+  refine ⟨by decide, by decide, by decide, by decide, by decide, ⟨_, rfl⟩⟩
 
 end PV.C14
